@@ -20,6 +20,7 @@ pub mod c18_fn;
 pub mod c18_world;
 pub mod c19;
 pub mod c19_fn;
+pub mod c19_seq;
 pub mod c12;
 pub mod c12_fn;
 pub mod c13;
